@@ -264,7 +264,10 @@ Definition evaluate_iterative (w : wbook) (t : nat) (it : Z) (tolv : Q) (st : st
   pass_loop w (Z.to_nat (it - 1)) t
             (sett st {| todo := todo t0; computed := computed t0; itn := 0; iters := it; tol := tolv |}).
 
-(* set_value(address, value) on a single cell in a compiler with cycles *)
+(* set_value(address, value) on a single cell in a compiler with cycles.  The
+   test is `cell.value != value or type(cell.value) is not type(value)`; values
+   here are blank or numbers of one type (the correspondence writes floats
+   only), so the type clause adds nothing to the comparison. *)
 Definition val_eqb (a b : val) : bool :=
   match a, b with
   | Some x, Some y => Qeq_bool x y
@@ -276,10 +279,15 @@ Definition set_value (c : nat) (v : val) (st : state) : res state :=
   else if val_eqb (readv st c) v then Ok st
   else Ok (setter c v (setter c v st)).
 
+(* the namespace as _IterativeEvalTracker.ns creates it on first access:
+   todo, computed, iteration_number = 0, iterations = 100, tolerance = 0.001 (the double) *)
+Definition tol_default : Q := 1152921504606847 # 1152921504606846976.
+Definition fresh_tracker : tracker :=
+  {| todo := []; computed := []; itn := 0; iters := 100; tol := tol_default |}.
 Definition init_state (w : wbook) : state :=
   {| cells := map (fun _ => cell0) (w_cells w);
      rngs := map (fun _ => rng0) (w_ranges w);
-     tr := {| todo := []; computed := []; itn := 0; iters := 0; tol := 0 |} |}.
+     tr := fresh_tracker |}.
 
 (* a history of public operations and what each one shows *)
 Inductive op := OEval (t : nat) (it : Z) (tolv : Q) | OSet (c : nat) (v : val).
